@@ -1186,9 +1186,10 @@ class Gen:
             s2.loop_hidden = True
             use_loop = False
         s2.vars.append(v)
-        # a def that reads the `loop` of the loop it sits in is called at that loop's level only: called from a
-        # deeper `% for` it would see that loop (the closure reads the variable at call time), while textually
-        # its innermost enclosing loop is the outer one - the property text leaves this open
+        # a nested def that reads `loop` or has loops of its own is called at the loop level it is written at only:
+        # called from a deeper `% for` it would see that loop / have it as the parent of its own loops (closures
+        # share the LoopStack and read `loop` at call time), while textually its innermost enclosing loop is the
+        # outer one - the property text leaves this open
         s2.defs = [d for d in s2.defs if not self.info[d].get("reads_loop")]
         known = set(s2.defs)
         body = self.body(s2)
@@ -1260,7 +1261,10 @@ class Gen:
             uses = True
         else:
             uses = False
-        self.info[name] = {"arity": len(params), "uses_caller": uses, "reads_loop": bool(reads)}
+        # a nested def (a closure sharing the LoopStack of the function around it) that reads `loop` or has loops of
+        # its own behaves according to the loops running at its CALL site
+        sensitive = (not sc.top) and (bool(reads) or any(detected(c) for c in body))
+        self.info[name] = {"arity": len(params), "uses_caller": uses, "reads_loop": sensitive}
         sc.defs.append(name)
         return ["def", name, params, fl, body]
 
